@@ -63,8 +63,7 @@ def specGuard (decl : List Const) (cur : Name → Option Int) : Bool :=
 
 /-! ### regions of C04 (also the enum-level part of C12 and C14)
 
-* grammar (`grammarOK`): the type name is not empty; the kind has at least one bit; names and values are aligned; every value is a value
-  of the kind; no spec gets type T through a typed expression (`X = T(5)`): the property's
+* grammar (`grammarOK`): the type name is not empty; the kind has 1 to 64 bits; names and values are aligned; no spec gets type T through a typed expression (`X = T(5)`): the property's
   grammar has every constant of T introduced by an explicit `T` or carried down from one.
   Outside ⇒ `Out`.
 * no constant of T at all ⇒ `Out` (nothing to generate; shoot writes nothing and exits 0).
@@ -73,40 +72,29 @@ def specGuard (decl : List Const) (cur : Name → Option Int) : Bool :=
   its name … and back") cannot be met by ANY implementation when two constants share a value or a
   trimmed name, so these declarations are outside its quantifier.  (The emitted map literals then
   have duplicate keys and do not compile; that failure belongs to C01.)
-* a negative value (signed kinds are in the grammar, `iota - 1` is an offset spec) ⇒ `F_negative`:
-  inside the quantifier, and the run fails (`x[Name--1]`).
-* a value above MaxInt64 (uint64/uint are in the grammar) ⇒ `F_big`: inside the quantifier, and
-  the run fails the same way because `valueof` prints `int64(u64)`.
+* negative values (signed kinds) and values above MaxInt64 (uint64/uint) are ordinary members of the
+  grammar and of `WF` (since /repo 9f224b6 they generate: signed sort, `valueof` by signedness).
 -/
 
-def specOK (T : Name) (k : Kind) (s : VSpec) : Bool :=
-  s.names.length == s.vals.length && s.vals.all k.has &&
-    !(s.ty.isNone && s.hasVals && s.exprTy == some T)
+def specOK (T : Name) (s : VSpec) : Bool :=
+  s.names.length == s.vals.length && !(s.ty.isNone && s.hasVals && s.exprTy == some T)
 
 def grammarOK (i : Input) : Bool :=
-  !i.T.isEmpty && decide (0 < i.kind.bits) && i.blocks.all (fun b => b.all (specOK i.T i.kind))
+  !i.T.isEmpty && decide (0 < i.kind.bits) && decide (i.kind.bits ≤ 64) && i.blocks.all (fun b => b.all (specOK i.T))
 
 def nodupOK (T : Name) (decl : List Const) : Bool :=
   decide (decl.map (·.val)).Nodup && decide (decl.map (fun c => trim T c.name)).Nodup &&
     decl.all (fun c => !(trim T c.name).isEmpty)
 
-def valuesSmall (decl : List Const) : Bool :=
-  decl.all (fun c => decide (0 ≤ c.val) && decide (c.val < 9223372036854775808))
+/-- every declared value is a value of the type (a Go rule: the constant would overflow otherwise) -/
+def valuesInKind (k : Kind) (decl : List Const) : Bool := decl.all (fun c => k.has c.val)
 
 def WF (i : Input) : Bool :=
-  grammarOK i && !i.decl.isEmpty && nodupOK i.T i.decl && valuesSmall i.decl
+  grammarOK i && !i.decl.isEmpty && nodupOK i.T i.decl && valuesInKind i.kind i.decl
 
-def F_negative (i : Input) : Bool :=
-  grammarOK i && !i.decl.isEmpty && nodupOK i.T i.decl && i.decl.any (fun c => decide (c.val < 0))
+def Out (i : Input) : Bool := !WF i
 
-def F_big (i : Input) : Bool :=
-  grammarOK i && !i.decl.isEmpty && nodupOK i.T i.decl && !i.decl.any (fun c => decide (c.val < 0)) &&
-    i.decl.any (fun c => decide (c.val ≥ 9223372036854775808))
-
-def Out (i : Input) : Bool := !(WF i || F_negative i || F_big i)
-
-def region (i : Input) : String :=
-  if WF i then "WF" else if F_negative i then "F_negative" else if F_big i then "F_big" else "Out"
+def region (i : Input) : String := if WF i then "WF" else "Out"
 
 /-! ## C12 -/
 
@@ -190,7 +178,7 @@ end Bit
 def F_undefined_map (bit : Bool) : Bool := bit && !(usedSyms bit).all (definedSyms.contains ·)
 
 def regionBit (i : Input) : String :=
-  if !WF i then (if region i == "WF" then "Out" else region i)
+  if !WF i then "Out"
   else
     let ok : Bool := match i.kind.bits with
       | 8 => Bit.WFt i.kind.signed (Bit.table (w := 8) i.T (specSorted i.decl))
@@ -208,7 +196,6 @@ int32, uint32).  The classes are those of C04 / C14, read off what the generator
 
 * `-gorm` without `-sql` is a usage error ⇒ `Out`; a malformed case or a run that writes nothing
   (no selected type has a constant) ⇒ `Out`;
-* a negative constant ⇒ `F_enumNegative`, a constant ≥ 2^63 ⇒ `F_enumBig` (the run exits 1);
 * `-bit` ⇒ `F_enumBitMap` (undefined `_<t>_map`);
 * two constants with the same value or the same trimmed name ⇒ `F_enumDupKey` (duplicate map keys);
 * otherwise `WF`: exit 0, header, gofmt-clean, same package, compiles.
@@ -218,24 +205,19 @@ structure PkgCase where
   bit : Bool
   sql : Bool
   gorm : Bool
-  /-- the types the run generates for -/
-  types : List Name
+  /-- the types the run generates for, with their kinds -/
+  types : List (Name × Kind)
   blocks : List (List VSpec)
   wellFormed : Bool
 
 def PkgCase.tablesOf (p : PkgCase) : List (Name × List Const) :=
-  (p.types.map (fun T => (T, sortC (collect T p.blocks)))).filter (fun e => !e.2.isEmpty)
+  (p.types.map (fun t => (t.1, sortC t.2 (collect t.1 p.blocks)))).filter (fun e => !e.2.isEmpty)
 
-def PkgCase.hasNeg (p : PkgCase) : Bool := p.tablesOf.any (fun e => e.2.any (fun c => decide (c.val < 0)))
-def PkgCase.hasBig (p : PkgCase) : Bool :=
-  p.tablesOf.any (fun e => e.2.any (fun c => decide (c.val ≥ 9223372036854775808)))
 def PkgCase.hasDup (p : PkgCase) : Bool :=
   p.tablesOf.any (fun e => !(decide (valuesT e.2).Nodup && decide (stringsT e.1 e.2).Nodup))
 
 def c01Region (p : PkgCase) : String :=
   if !p.wellFormed || (p.gorm && !p.sql) || p.tablesOf.isEmpty then "Out"
-  else if p.hasNeg then "F_enumNegative"
-  else if p.hasBig then "F_enumBig"
   else if p.bit then "F_enumBitMap"
   else if p.hasDup then "F_enumDupKey"
   else "WF"
@@ -243,7 +225,6 @@ def c01Region (p : PkgCase) : String :=
 /-- what the model of the generator predicts for the run: (exit code, something written, compiles) -/
 def c01Model (p : PkgCase) : Nat × Bool × Bool :=
   if p.gorm && !p.sql then (1, false, false)
-  else if p.tablesOf.any (fun e => match gen e.1 p.blocks with | .formatError => true | _ => false) then (1, false, false)
   else (0, !p.tablesOf.isEmpty, p.tablesOf.all (fun e => compiles p.bit e.1 e.2))
 
 end ShootVerif.Enum
